@@ -20,6 +20,11 @@ PID = 'C16'
 MOD = 'checks.c16'
 
 
+def Q(v):
+  from fractions import Fraction
+  return z3.RealVal(Fraction(float(v)))
+
+
 def _r(t):
   t = R(t)
   return z3.ToReal(t) if z3.is_int(t) else t
@@ -188,6 +193,37 @@ def task_hybrid(ctx, hname, sname, sigma_bounds):
   okl, ml = decide(ctx, 'hybrid.output_is_weighted_sum_of_inputs', conf, pre,
                    z3.Or(*[o_ != sum(Wc[i][j] * fv[j] for j in range(ns)) for i, o_ in enumerate(outs)]), 'QF_NRA', timeout=30000)
   okr, mr = (okw and okl), (mw or ml)
+  # thickness-weighted integral over the covered range, against an INDEPENDENT specification of the source layers: hybrid level k sits at
+  # pressure a_k + b_k ps, i.e. sigma_k(ps) = (a_k + b_k ps) / ps (documented definition of hybrid coordinates); covered thickness of target
+  # layer i: |t_i ∩ [sigma_0, sigma_ns]|, of source layer j: |s_j ∩ [t_0, t_nt]|.  sum_i out_i cov_i = sum_j f_j c_j for every ps and field.
+  sb = [(Q(a[k]) + Q(b[k]) * p) / p for k in range(ns + 1)]
+  tbq = [Q(v) for v in tb]
+  ovl = lambda lo1, hi1, lo2, hi2: mx(mn(hi1, hi2) - mx(lo1, lo2), z3.RealVal(0))
+  cov = [ovl(tbq[i], tbq[i + 1], sb[0], sb[ns]) for i in range(nt)]
+  cj = [ovl(sb[j], sb[j + 1], tbq[0], tbq[nt]) for j in range(ns)]
+  outs_raw = [_r(x) for x in out.a.reshape(-1)]
+  lhs_i = sum(o_ * c_ for o_, c_ in zip(outs_raw, cov)); rhs_i = sum(fv[j] * cj[j] for j in range(ns))
+  pre_i = rng_ps + [c_ > 0 for c_ in cov] + [x >= -1 for x in fv] + [x <= 1 for x in fv]
+  tol_i = Q(1e-9)
+  oki, mi = decide(ctx, 'hybrid.thickness_weighted_integral_over_covered_range_conserved', dict(conf, abstraction='none', source_layers='independent specification (a_k + b_k ps) / ps'),
+                   pre_i, z3.Or(lhs_i - rhs_i > tol_i, rhs_i - lhs_i > tol_i), 'QF_NRA', timeout=120000)
+  if not oki and mi is not None:
+    pv = _model_vals(mi, [p])[0]; fc = np.array(_model_vals(mi, fv))
+    found = None
+    for pc in [pv] + list(np.linspace(400, 1100, 15)):
+      res = np.asarray(vi.regrid_hybrid_to_sigma(jnp.asarray(fc).reshape(ns, 1, 1), hyb, sig, pc * jnp.ones((1, 1)))).reshape(-1)
+      sbn = (np.asarray(a) + np.asarray(b) * pc) / pc
+      covn = np.maximum(np.minimum(np.asarray(tb)[1:], sbn[-1]) - np.maximum(np.asarray(tb)[:-1], sbn[0]), 0)
+      cjn = np.maximum(np.minimum(sbn[1:], tb[-1]) - np.maximum(sbn[:-1], tb[0]), 0)
+      if np.all(covn > 0):
+        d = abs(float(np.sum(res * covn)) - float(np.sum(fc * cjn)))
+        if d > 1e-9:
+          found = (float(pc), d, float(np.sum(res * covn)), float(np.sum(fc * cjn))); break
+    if found:
+      ctx.violation('hybrid.thickness_weighted_integral_over_covered_range_conserved', dict(config=conf, kind='integral'), dict(inputs=[found[0], fc.tolist()], output_integral=found[2], input_integral=found[3]),
+                    f'regrid_hybrid_to_sigma({hname}->{sname}): thickness-weighted integral over the covered range changes from {found[3]} to {found[2]} at ps={found[0]}')
+    else:
+      ctx.error('hybrid.integral', 'counterexample did not replay on the real function')
   for okx, mm, cname in ((okc, mc, 'constants_reproduced'), (okr, mr, 'output_within_input_range')):
     if not okx and mm is not None:
       # concretise on the real function: search surface pressures on a grid for a replay
